@@ -188,7 +188,7 @@ def cadence(ctx):
     history = []
     for attempt, scale in enumerate([1, 2, 4]):
         vs, runs = cadence_once(ctx, scale)
-        misses = sum(len(v["misses"]) for v in vs)
+        misses = sum(len(v["misses"]) + len(v["absent"]) + len(v["tail"]) for v in vs)
         late = sum(len(v["late"]) for v in vs)
         early = sum(len(v["early"]) for v in vs)
         n = sum(v["n"] for v in vs)
@@ -203,12 +203,13 @@ def cadence(ctx):
             return
     # a miss in three consecutive runs with doubled durations cannot be scheduling delay alone
     ctx.extra["cadence_runs"] = history
-    v = [x for x in vs if x["misses"]][0]
+    v = [x for x in vs if x["misses"] or x["absent"] or x["tail"]][0]
     run = [x for x in runs if x["id"] == v["id"]][0]
-    nm = v["misses"][0][0]
+    nm = (v["absent"] + v["tail"] + [m[0] for m in v["misses"]])[0]
     ctx.violation("C09:Cadence:%s" % ("informer" if nm != "ping" else "ping"),
-                  "metric %s republished only after the previous one had expired, in 3 consecutive runs with doubled "
-                  "durations (%s)" % (nm, json.dumps(history)),
+                  "metric %s not republished before the previous one expired (absent=%s, expired at end=%s, late "
+                  "republications=%d), in 3 consecutive runs with doubled durations (%s)" % (
+                      nm, v["absent"], v["tail"], len(v["misses"]), json.dumps(history)),
                   {"cadence": True, "run": run, "verdict": v, "history": history})
 
 
@@ -234,7 +235,7 @@ def run(ctx):
         "a script whose pre-tick steps eat 3/4 of the TTL is retried with a doubled TTL",
         "where >= 6 metrics are stored the accrual detector's verdict is read off the observation (not predicted)",
         "ring window modelled as a bounded queue; alert order within one check is left free (map iteration)",
-        "cadence: ping publish errors are not injected (pushPingMetrics has zero margin after a lost ping: "
+        "cadence: two informers (TTL 400 and 600 ms) and the ping; ping publish errors are not injected (pushPingMetrics has zero margin after a lost ping: "
         "MonitorCadence MaxErrPing = 0); informer publish errors are isolated (every third attempt)"]
     quick = ctx.quick()
     # SPEC
@@ -252,11 +253,19 @@ def run(ctx):
     ctx.exhaustive = True
     # REFUTE: the switches of the code as found break the property in the model; the witnesses are replayed
     scripts = [refute(ctx, "MonitorMC_refute.cfg", "InvAlertOnce", "witness:per_metric"),
-               refute(ctx, "MonitorMC_refute2.cfg", "InvReported", "witness:sticky")]
+               refute(ctx, "MonitorMC_refute2.cfg", "InvReported", "witness:sticky"),
+               # per-peer instead of per-(peer, name) alert record: two expired names on one peer interact
+               refute(ctx, "MonitorMC_refute3.cfg", "InvAlertOnce", "witness:forget_peer"),
+               # reachability goals on the as-coded model: one peer, two expired names, full alert cycle of both
+               refute(ctx, "MonitorMC_goal_cp.cfg", "NeverTwoNamesCycleCP", "goal:two_names:checkpeers"),
+               refute(ctx, "MonitorMC_goal_all.cfg", "NeverTwoNamesCycleAll", "goal:two_names:checkall"),
+               refute(ctx, "MonitorMC_goal_watch.cfg", "NeverTwoNamesCycleWatch", "goal:two_names:watch")]
     # GEN
     n_small, n_big = (160, 60) if quick else (2400, 600)
     scripts += simulate(ctx, "MonitorMC_sim.cfg", n_small, 28, ctx.seed, "sim:w3")
     scripts += simulate(ctx, "MonitorMC_simbig.cfg", n_big, 28, ctx.seed + 1000, "sim:w25")
+    # 2 names x 2 peers: interactions between the metric names of one peer are frequent here
+    scripts += simulate(ctx, "MonitorMC_simpair.cfg", 80 if quick else 1200, 28, ctx.seed + 2000, "sim:pair")
     for i, sc in enumerate(scripts):
         sc["id"] = i + 1
         sc["accn"] = ACCN
